@@ -13,8 +13,8 @@ done
 git -C /repo checkout -- . ; git -C /repo status --short | grep -v '^??' | head -3
 for p in "$@"; do cp $tmp/$p.json /verif/evidence/ 2>/dev/null; done
 rm -rf $tmp
-# regenerate the translated files from the restored tree
-(cd /verif && /venv/bin/python -c "
+# regenerate the translated files from the restored tree (only needed when the patch touched what the translators read)
+grep -q 'pgradd/data\|Grammar.py\|Units/builtin\|Units/db\|Units/Consts\|\.yaml' "$patch" && (cd /verif && /venv/bin/python -c "
 import sys; sys.path.insert(0,'tools')
 import gen
 for k in gen.GENERATORS: gen.GENERATORS[k]()
